@@ -96,7 +96,7 @@ def run_r5(chk: Check, prog: Program) -> None:
                                      f.where)
 
 
-def run_concrete_history(chk: Check, prog: Program) -> None:
+def run_concrete_history(chk: Check, prog: Program, rid: str = "C12.R7", focus: str = None) -> None:
     """Call histories over *related* texts (one text is a side, a prefix or the whole of another), with the real tokenizer
     and parser interpreted on concrete strings: the tree the last call returns must be the tree a fresh parser returns,
     its root must have no parent and its links must be consistent - results of earlier calls must not be linked into
@@ -105,17 +105,21 @@ def run_concrete_history(chk: Check, prog: Program) -> None:
     from sa.absint import AbsRaise, Interp, Node, explore
     from sa.heapterm import HeapView
     from sa.summaries import Summaries
-    chk.rule("C12.R7", "histories over related concrete texts (sides / prefixes of one another): the last parse equals a fresh "
-             "parser's, is a root, and has consistent links", minimum=100)
+    chk.rule(rid, "histories over related concrete texts (sides / prefixes of one another, a text that fails to parse): the "
+             "last parse equals a fresh parser's - same tree or same exception -, is a root, and has consistent links",
+             minimum=100 if focus is None else 20)
     S = Summaries(prog)
     pcls = prog.cls("ExpressionParser")
     m_parse = prog.func("parser", "ExpressionParser.parse")
     # ... and a text together with the printed form of its tree, where that form reads back as a different (equal-valued)
     # tree: "-xy" is -(x * y) and prints "-x * y", which reads as (-x) * y
-    texts = ["x", "y", "x = y", "x + 1", "x + 1 = y", "y = x + 1", "2x", "-x", "x+1=x+1", "-xy", "-x * y"]
+    # ... and a text the parser rejects ("x +": the tokens are kept, no tree is), before and after texts it accepts
+    texts = ["x", "y", "x = y", "x + 1", "x + 1 = y", "y = x + 1", "2x", "-x", "x+1=x+1", "-xy", "-x * y", "x +"]
     seqs = [s_ for s_ in itertools.permutations(texts, 2)] + [(a, b, a) for a, b in itertools.permutations(texts, 2)]
-    if chk.tier == "quick":
-        seqs = [s_ for s_ in seqs if "=" in "".join(s_) or "-xy" in s_]
+    if focus is not None:
+        seqs = [s_ for s_ in seqs if focus in s_]
+    elif chk.tier == "quick":
+        seqs = [s_ for s_ in seqs if "=" in "".join(s_) or "-xy" in s_ or "x +" in s_]
     where = m_parse.where
 
     def audit(it, root_cid):
@@ -160,7 +164,7 @@ def run_concrete_history(chk: Check, prog: Program) -> None:
         for p in explore(prog, body, cfg, max_paths=8):
             label = "parse " + " ; ".join(repr(t) for t in seq)
             if p.outcome != "return":
-                chk.undecided("C12.R7", "C12.R7:bound", label, f"{p.outcome} {p.exc or p.note}", where)
+                chk.undecided(rid, f"{rid}:bound", label, f"{p.outcome} {p.exc or p.note}", where)
                 continue
             it = p.interp
             (k1, v1), (k2, v2) = p.value
@@ -180,7 +184,7 @@ def run_concrete_history(chk: Check, prog: Program) -> None:
                 probs += audit(it, v1.cid)
             else:
                 probs.append(f"parse returns {v1!r}")
-            chk.verdict(not probs, "C12.R7", "C12.R7:ExpressionParser.parse:related-texts", label, "; ".join(probs),
+            chk.verdict(not probs, rid, f"{rid}:ExpressionParser.parse:related-texts", label, "; ".join(probs),
                         witness={"calls": list(seq), "problems": probs}, where=where)
 
 
